@@ -318,7 +318,11 @@ fn main() {
         },
         "vectors" => {
             let path = arg(&args, "--file").expect("--file");
-            if args.iter().any(|a| a == "--gen") {
+            if args.iter().any(|a| a == "--gen-special") {
+                let v = vectors::gen_special();
+                std::fs::write(path, serde_json::to_string_pretty(&v).unwrap()).unwrap();
+                println!("{}", json!({"generated": v.len()}));
+            } else if args.iter().any(|a| a == "--gen") {
                 let v = vectors::gen();
                 std::fs::write(path, serde_json::to_string_pretty(&v).unwrap()).unwrap();
                 println!("{}", json!({"generated": v.len()}));
